@@ -84,4 +84,36 @@ Section Str.
     - intros c ps Hne Hc. unfold sl_split. rewrite split_join_char by assumption. destruct ps; [congruence|reflexivity].
     - reflexivity.
   Qed.
+
+  (* words: no word is empty or contains whitespace, and the words concatenate to the string with
+     its whitespace removed *)
+  Variable is_space : Ch -> bool.
+  Definition wordy (w : str) : Prop := w <> [] /\ Forall (fun c => is_space c = false) w.
+
+  Lemma words_go_spec : forall s cur, Forall (fun c => is_space c = false) cur ->
+    Forall wordy (words_go is_space cur s) /\
+    concat (words_go is_space cur s) = rev cur ++ filter (fun c => negb (is_space c)) s.
+  Proof.
+    induction s as [|c t IH]; intros cur Hc; cbn [words_go filter].
+    - destruct cur as [|a cur']; [split; [constructor|reflexivity]|].
+      split; [|cbn [concat]; now rewrite !app_nil_r].
+      constructor; [|constructor]. split.
+      + cbn [rev]. intros E. apply (f_equal (@length Ch)) in E. rewrite app_length in E. cbn in E. lia.
+      + apply Forall_rev. exact Hc.
+    - destruct (is_space c) eqn:E; cbn [negb].
+      + destruct cur as [|a cur'].
+        * apply (IH [] Hc).
+        * destruct (IH [] (Forall_nil _)) as (I1 & I2). split.
+          -- constructor; auto. split.
+             ++ cbn [rev]. intros E'. apply (f_equal (@length Ch)) in E'. rewrite app_length in E'. cbn in E'. lia.
+             ++ apply Forall_rev. exact Hc.
+          -- cbn [concat]. rewrite I2. reflexivity.
+      + destruct (IH (c :: cur)) as (I1 & I2); [constructor; auto|]. split; auto.
+        rewrite I2. cbn [rev]. now rewrite <- app_assoc.
+  Qed.
+
+  Theorem words_spec : forall s,
+    Forall wordy (sl_words is_space s) /\ concat (sl_words is_space s) = filter (fun c => negb (is_space c)) s.
+  Proof. intros s. exact (words_go_spec s [] (Forall_nil _)). Qed.
 End Str.
+Arguments wordy {Ch} is_space w.
